@@ -369,6 +369,11 @@ done:
 	return x
 }
 `},
+	// a package whose NAME (trusted_kv) differs from its directory (kvdir), and an
+	// importer: how the import is rendered must not depend on whether the
+	// imported package is translated in the same invocation
+	"kvdir": {"kv.go": "package trusted_kv\n\nfunc Get(k uint64) uint64 {\n\treturn k + 1\n}\n"},
+	"useskv": {"u.go": "package useskv\n\nimport \"vscratch/synth/kvdir\"\n\nfunc Twice(k uint64) uint64 {\n\treturn trusted_kv.Get(trusted_kv.Get(k))\n}\n"},
 	// packages that do not type-check: load errors in three files with one
 	// error each (their order in the message must not depend on anything), and
 	// an importer of a package that does not compile (what it reports must not
@@ -719,7 +724,8 @@ func (c06) Gen(rng *simrt.Rand, tier string, run int) interface{} {
 		group := [][]string{{"./synth/item", "./synth/cart"}, {"./synth/cart", "./synth/item"}, {"./synth/ffiapp1", "./synth/ffiapp2"},
 			{"./synth/ffistore", "./synth/ffiapp2", "./synth/ffiapp1"}, {"./synth/multi", "./synth/fwd", "./synth/errs2"},
 			{"./synth/errsA", "./synth/errsB"}, {"./synth/errsB", "./synth/errs2", "./synth/errsA"},
-			{"./synth/usesdep", "./synth/depbad"}, {"./synth/usesdep", "./synth/tyerr"}, {"./synth/tyerr"}}[rng.Intn(10)]
+			{"./synth/usesdep", "./synth/depbad"}, {"./synth/usesdep", "./synth/tyerr"}, {"./synth/tyerr"},
+			{"./synth/useskv", "./synth/kvdir"}, {"./synth/useskv"}}[rng.Intn(12)]
 		p.Patterns = append(append([]string{}, group...), p.Patterns[:rng.Intn(len(p.Patterns)+1)]...)
 		seen := map[string]bool{}
 		var uniq []string
